@@ -45,6 +45,16 @@ CHECKS = {
                 note="Trusted: pbt/flatmodel.py. Positive magnifications only; sub-tolerance (degenerate) magnified paths are not "
                      "generated; robust-path outlines are judged only where outline-then-transform is an identity.",
                 technique="model-based property testing (Hypothesis) of query/flatten histories against an affine-composition oracle"),
+    "C07": dict(level="exploration", design="4 C07",
+                text="Generated FlexPaths (polylines with turns up to 150 degrees, 1-3 elements, constant/tapering widths and offsets, "
+                     "all join/end/bend types with clearly fitting or clearly non-fitting radii; tangent-continuous segment/turn "
+                     "paths; arbitrary histories over all 13 construction calls): per-call width/offset bookkeeping, spine = "
+                     "Curve built by the same calls, outline polygons probed at decidable inside/outside samples of a centre-line "
+                     "region model rebuilt from the call history (exact join geometry on the outer bisector of every joint), and "
+                     "simple paths re-loaded from GDSII/OASIS PATH records probed with the same model.",
+                note="Trusted: pbt/pathmodel.py. Undecidable samples (within band = 3 x tolerance of the boundary, ambiguous bend fits, "
+                     "ill-conditioned displaced-line joints) are not used. Known finding C07-K1 (round ends in OASIS).",
+                technique="property-based testing (Hypothesis) with an independent swept-region membership oracle and a write/read differential"),
     "C09": dict(level="exploration", design="4 C09",
                 text="Generated hierarchies incl. degenerate contents (collinear, single point, empty) and explicit repetitions under "
                      "oblique rotations; Cell/Reference/Polygon/Label bounding boxes and convex hulls, uncached and with a shared "
